@@ -86,6 +86,7 @@ type Scheduler struct {
 	panics      []string
 	timeAlts    int // explicit time-step choices taken so far
 	maxTimeAlts int
+	familyFirst bool
 }
 
 var cur atomic.Pointer[Scheduler]
@@ -396,8 +397,31 @@ func (x *Exec) Run() {
 			continue
 		}
 		idle = 0
-		// canonical order: previous thread first if it is enabled, then ascending ids
-		sort.Slice(en, func(i, j int) bool { return en[i].id < en[j].id })
+		// canonical order: previous thread first if it is enabled, then ascending ids; with familyFirst the
+		// threads related to the previous one come before the others (its descendants, then the rest of its
+		// root's family), so that choice 0 everywhere runs one operation with its helpers to the end before the
+		// next operation - the deterministic scheduler that the delay bound (Explorer.FreeBound) is relative to
+		if s.familyFirst && s.prev != nil {
+			pn := s.prev.name
+			rank := func(t *thread) int {
+				switch {
+				case strings.HasPrefix(t.name, pn+"."):
+					return 1
+				case rootName(t.name) == rootName(pn):
+					return 2
+				}
+				return 3
+			}
+			sort.Slice(en, func(i, j int) bool {
+				ri, rj := rank(en[i]), rank(en[j])
+				if ri != rj {
+					return ri < rj
+				}
+				return en[i].id < en[j].id
+			})
+		} else {
+			sort.Slice(en, func(i, j int) bool { return en[i].id < en[j].id })
+		}
 		prevOK := false
 		if s.prev != nil {
 			for i, t := range en {
@@ -478,6 +502,13 @@ func (x *Exec) Run() {
 	}
 }
 
+func rootName(n string) string {
+	if i := strings.IndexByte(n, '.'); i >= 0 {
+		return n[:i]
+	}
+	return n
+}
+
 func (s *Scheduler) describeStuck() string {
 	s.mu.Lock()
 	defer s.mu.Unlock()
@@ -533,6 +564,17 @@ type Explorer struct {
 	Stop         func() bool
 	Share        int // this worker's index among the workers exploring the same scenario
 	NShare       int // number of such workers (level-1 subtrees are dealt round-robin)
+	// FamilyFirst changes the canonical order of the enabled threads (see Run): relatives of the previous
+	// thread first. Choice indices of recorded schedules are relative to the order in force.
+	FamilyFirst bool
+	// FreeLimited/FreeBound: delay bound. A non-default choice at a point where the previous thread is NOT
+	// enabled (it blocked or finished, so the switch is not a preemption) costs one "free deviation"; at most
+	// FreeBound of them per execution are explored when FreeLimited is set (otherwise all of them).
+	FreeLimited bool
+	FreeBound   int
+	// PreemptSite, if set, restricts where preemptions are offered: only where the call site (pc of the caller
+	// of Lock/RLock) of the pending operation of the thread that would be pre-empted is accepted.
+	PreemptSite func(pc uintptr) bool
 
 	shared     map[uintptr]bool
 	Executions int
@@ -543,10 +585,24 @@ type Explorer struct {
 }
 
 func (e *Explorer) isShared(site uintptr) bool {
+	if e.PreemptSite != nil && !e.PreemptSite(site) {
+		return false
+	}
 	if !e.FilterShared {
 		return true
 	}
 	return e.shared[site]
+}
+
+// SiteFunc returns the name of the function containing a call site (for PreemptSite filters).
+func SiteFunc(pc uintptr) string {
+	if pc == 0 {
+		return ""
+	}
+	if f := runtime.FuncForPC(pc - 1); f != nil {
+		return f.Name()
+	}
+	return ""
 }
 
 // SharedSites returns the number of lock call sites seen on objects touched by >= 2 threads.
@@ -599,7 +655,7 @@ func (e *Explorer) Explore(body func(x *Exec)) {
 		for i := range x.Points {
 			expect[i] = x.Points[i].Sig
 		}
-		cost := 0
+		cost, fcost := 0, 0
 		nchild := 0
 		for i := 0; i < len(x.Points); i++ {
 			p := x.Points[i]
@@ -609,14 +665,16 @@ func (e *Explorer) Explore(body func(x *Exec)) {
 					nalt++
 				}
 				for alt := 1; alt < nalt; alt++ {
-					c := cost
+					c, f := cost, fcost
 					if p.PrevOK || alt == len(p.Enabled) {
 						c++
 						if !p.Shared && alt != len(p.Enabled) {
 							continue
 						}
+					} else {
+						f++
 					}
-					if c > e.Bound {
+					if c > e.Bound || (e.FreeLimited && f > e.FreeBound) {
 						continue
 					}
 					if len(it.prefix) == 0 && e.NShare > 1 {
@@ -631,6 +689,8 @@ func (e *Explorer) Explore(body func(x *Exec)) {
 			}
 			if (p.PrevOK && p.Chosen != 0) || p.Chosen == len(p.Enabled) {
 				cost++
+			} else if p.Chosen != 0 {
+				fcost++
 			}
 		}
 	}
@@ -639,7 +699,7 @@ func (e *Explorer) Explore(body func(x *Exec)) {
 func (e *Explorer) runOne(it item, body func(x *Exec)) *Exec {
 	s := &Scheduler{byG: map[int64]*thread{}, prefix: it.prefix, expect: it.expect,
 		touched: map[*LockState]map[int]bool{}, objSites: map[*LockState]map[uintptr]bool{},
-		maxSteps: e.MaxSteps, horizon: e.Horizon, maxTimeAlts: e.TimeChoices}
+		maxSteps: e.MaxSteps, horizon: e.Horizon, maxTimeAlts: e.TimeChoices, familyFirst: e.FamilyFirst}
 	x := &Exec{s: s, e: e}
 	cur.Store(s)
 	body(x)
